@@ -147,7 +147,7 @@ def run(tier, seed):
     t0 = time.time()
     exe = core.build("rel")
     shim = core.tool("iofault.so")
-    n, mt = (260, 400000) if tier == "quick" else (5000, 3000000)
+    n, mt = (260, 400000) if tier == "quick" else (3000, 2000000)
     stats, fails = core.hyp_search(strategy(mt), make_eval(exe, shim), n, seed)
     oc = core.conclude(PID, fails, replay_case, confirm_runs=5)
     core.write_evidence(PID, tier, seed, "exploration", stats, RULE, time.time() - t0,
